@@ -18,6 +18,7 @@ import json, os, random
 import vf
 
 LEVEL = "fault_enumeration"
+BUILDS = [("c07_tls", "plain"), ("c07_tls", "asan"), ("c07_tls", "tsan")]   # tsan: thorough tier only
 
 CLIENT_ENTRIES = ("transport-client", "http-client")
 SERVER_ENTRIES = ("transport-server", "http-server")
@@ -516,6 +517,10 @@ def covering_subset(cells, rng, target):
         v, reasons, eithers = expect(c)
         if v == "reject":
             if len(reasons) == 1: f.add((c["entry"], "solo-reject", reasons[0]))
+            # cells where only the hard floor (not a configured minimum) stands between the
+            # two sides and a TLS 1.0 / 1.1 session
+            if reasons == ["floor"] and c["imin"] * 1 <= c["pmax"] and c["imin"] < 12:
+                f.add((c["entry"], "floor-by-clamp-only", c["pmax"]))
         elif v == "accept":
             f.add((c["entry"], "accept", c["verify"], c["trust"] if c["verify"] == "on" else ""))
         else:
